@@ -597,6 +597,13 @@ func findSequencesOnDisk(path string, opts *findSeqOptions) (FileSequences, erro
 		return nil, err
 	}
 
+	// Symlinks are resolved relative to the directory that was opened:
+	// the cleaned path is only lexical ("link/.." may name another directory)
+	openPath := path
+	if !os.IsPathSeparator(openPath[len(openPath)-1]) {
+		openPath += string(filepath.Separator)
+	}
+
 	// Prep a string buffer that we can reuse to constantly
 	// build strings
 	path = filepath.Clean(path)
@@ -622,7 +629,7 @@ func findSequencesOnDisk(path string, opts *findSeqOptions) (FileSequences, erro
 		// Also skip symlinks that point to directories
 		if (info.Mode() & os.ModeSymlink) != 0 {
 			buf.WriteString(info.Name())
-			syminfo, err := os.Stat(buf.String())
+			syminfo, err := os.Stat(openPath + info.Name())
 			buf.Truncate(size)
 			if err != nil {
 				return nil, fmt.Errorf("Error reading symlink %q: %s", buf.String(), err)
